@@ -30,7 +30,7 @@ BLOCK = {'py': 4096, 'c': 16384}
 
 def bounds(tier, seed):
     q = tier == 'quick'
-    return {'deviations': '2 for inputs <= 16 units, else 1' if q else 2, 'all_chunkings_upto_units': 10, 'documents': len(documents()), 'padded_boundaries': [4096, 8192, 16384],
+    return {'deviations': '2 for inputs <= 16 units, else 1' if q else 2, 'all_chunkings_upto_units': 10 if q else 13, 'documents': len(documents()), 'padded_boundaries': [4096, 8192, 16384],
             'quick_slice': 'stream forms other than utf-8 binary and text: cut positions with index % 4 == seed % 4' if q else None}
 
 
@@ -282,7 +282,11 @@ def _short(x, n=260):
 
 
 # ---------------------------------------------------------------- per-document check
-def check_text(T, sub, name, text, dev, slice_=None, forms=FORMS, apis=APIS):
+ALL_CHUNKINGS_UPTO = 10
+
+
+def check_text(T, sub, name, text, dev, slice_=None, forms=FORMS, apis=APIS, allchunk=None):
+    allchunk = allchunk or ALL_CHUNKINGS_UPTO
     for be, Loader in BACKENDS:
         for api in apis:
             ref_str = observe(api, text, Loader)
@@ -309,7 +313,7 @@ def check_text(T, sub, name, text, dev, slice_=None, forms=FORMS, apis=APIS):
                     if got[1][1] != want:
                         T.violation(sub, 'reader-position', case, detail='%s/%s as str: ReaderError position %r, independently computed %r' % (be, api, got[1][1], want))
                 # (1) streams over this form: every schedule equals the in-memory result
-                if len(data) <= 10 and len(data) >= 2:
+                if len(data) <= allchunk and len(data) >= 2:
                     for sizes in compositions(len(data)):
                         check_schedule(T, sub, case, api, be, Loader, data, got, sizes)
                 # every read answered with a constant number of units (1, 2, 3, 5, 7): many deviations, but a single parameter
@@ -368,7 +372,7 @@ def run_job(job, T):
     kind = job[0]
     if kind == 'doc':
         name, text = documents()[job[1]]
-        check_text(T, 'documents', name, text, job[2], job[3])
+        check_text(T, 'documents', name, text, job[2], job[3], allchunk=10 if job[3] else 13)
         T.sample('documents', {'doc': name, 'text': text})
     elif kind == 'bytes':
         name, data, off = byte_documents()[job[1]]
